@@ -6,6 +6,12 @@ use dicom_object::{FileDicomObject, FileMetaTableBuilder, InMemDicomObject};
 pub type Obj = FileDicomObject<InMemDicomObject>;
 
 pub fn mk(rows: u16, cols: u16, spp: u16, ba: u16, frames: u32, px: Value<InMemDicomObject>, ts: &str) -> Obj {
+    // encapsulated pixel data is always OB (writing a pixel sequence under OW reaches an unreachable!() in the token generator)
+    let vr = if ba == 16 && !matches!(px, Value::PixelSequence(_)) { VR::OW } else { VR::OB };
+    mk_vr(rows, cols, spp, ba, frames, px, vr, ts)
+}
+
+pub fn mk_vr(rows: u16, cols: u16, spp: u16, ba: u16, frames: u32, px: Value<InMemDicomObject>, vr: VR, ts: &str) -> Obj {
     let mut o = InMemDicomObject::new_empty();
     o.put(DataElement::new(tags::SOP_CLASS_UID, VR::UI, uids::SECONDARY_CAPTURE_IMAGE_STORAGE));
     o.put(DataElement::new(tags::SOP_INSTANCE_UID, VR::UI, "1.2.3.4"));
@@ -21,7 +27,7 @@ pub fn mk(rows: u16, cols: u16, spp: u16, ba: u16, frames: u32, px: Value<InMemD
         o.put(DataElement::new(tags::PLANAR_CONFIGURATION, VR::US, PrimitiveValue::from(0u16)));
     }
     o.put(DataElement::new(tags::NUMBER_OF_FRAMES, VR::IS, frames.to_string()));
-    o.put(DataElement::new(tags::PIXEL_DATA, if ba == 16 { VR::OW } else { VR::OB }, px));
+    o.put(DataElement::new(tags::PIXEL_DATA, vr, px));
     o.with_meta(
         FileMetaTableBuilder::new()
             .transfer_syntax(ts)
@@ -45,4 +51,46 @@ pub fn native_value(bytes: &[u8], as_words: bool) -> Value<InMemDicomObject> {
 pub fn px_err_class(e: &dicom_pixeldata::Error) -> u32 {
     let d = format!("{:?}", e);
     if d.starts_with("Error(FrameOutOfRange") { 1 } else if d.starts_with("Error(DecodePixelData") { 2 } else { 9 }
+}
+
+/// How a native Pixel Data value is held in memory.
+#[derive(Clone, Copy, Debug, PartialEq)]
+pub enum Rep { U8, U16, I16, U32, I32, U64 }
+impl Rep {
+    pub fn width(self) -> usize { match self { Rep::U8 => 1, Rep::U16 | Rep::I16 => 2, Rep::U32 | Rep::I32 => 4, Rep::U64 => 8 } }
+}
+
+/// the value holding `bytes` (length a multiple of the element width) as little-endian elements
+pub fn held_value(bytes: &[u8], rep: Rep) -> PrimitiveValue {
+    assert!(bytes.len() % rep.width() == 0);
+    match rep {
+        Rep::U8 => PrimitiveValue::from(bytes.to_vec()),
+        Rep::U16 => PrimitiveValue::U16(bytes.chunks(2).map(|c| u16::from_le_bytes([c[0], c[1]])).collect()),
+        Rep::I16 => PrimitiveValue::I16(bytes.chunks(2).map(|c| i16::from_le_bytes([c[0], c[1]])).collect()),
+        Rep::U32 => PrimitiveValue::U32(bytes.chunks(4).map(|c| u32::from_le_bytes([c[0], c[1], c[2], c[3]])).collect()),
+        Rep::I32 => PrimitiveValue::I32(bytes.chunks(4).map(|c| i32::from_le_bytes([c[0], c[1], c[2], c[3]])).collect()),
+        Rep::U64 => PrimitiveValue::U64(bytes.chunks(8).map(|c| u64::from_le_bytes([c[0], c[1], c[2], c[3], c[4], c[5], c[6], c[7]])).collect()),
+    }
+}
+
+/// element width and elements (as unsigned numbers) of the numeric value an object actually holds
+pub fn held_elements(p: &PrimitiveValue) -> Option<(usize, Vec<u64>)> {
+    Some(match p {
+        PrimitiveValue::Empty => (1, vec![]),
+        PrimitiveValue::U8(v) => (1, v.iter().map(|&x| x as u64).collect()),
+        PrimitiveValue::U16(v) => (2, v.iter().map(|&x| x as u64).collect()),
+        PrimitiveValue::I16(v) => (2, v.iter().map(|&x| x as u16 as u64).collect()),
+        PrimitiveValue::U32(v) => (4, v.iter().map(|&x| x as u64).collect()),
+        PrimitiveValue::I32(v) => (4, v.iter().map(|&x| x as u32 as u64).collect()),
+        PrimitiveValue::U64(v) => (8, v.iter().copied().collect()),
+        PrimitiveValue::I64(v) => (8, v.iter().map(|&x| x as u64).collect()),
+        _ => return None,
+    })
+}
+
+/// write the object to a DICOM file image and read it back
+pub fn file_round_trip(o: &Obj) -> Option<Obj> {
+    let mut buf = vec![];
+    o.write_all(&mut buf).ok()?;
+    dicom_object::from_reader(&buf[..]).ok()
 }
